@@ -93,6 +93,23 @@ def run_grid(case, seed, R):
         x = R.call(lambda: rd.x)
         R.expect_close(x, X, 4 * eps * np.abs(X), f'RichData.x:{par(n0)}x{par(n1)}', 'RichData.x (y read first)')
         R.expect_close(y, Y, 4 * eps * np.abs(Y), f'RichData.y:{par(n0)}x{par(n1)}', 'RichData.y (y read first)')
+        # coordinates of different objects are independent: writing into the array one object handed out must not
+        # change what another object (same shape, dx, precision) or a later fresh object reports
+        a, b = RichData(np.zeros((n0, n1)), dx, 0.5), RichData(np.zeros((n0, n1)), dx, 0.5)
+        xa, ya = R.call(lambda: a.x), R.call(lambda: a.y)
+        if xa is not FAILED and ya is not FAILED:
+            try:
+                xa += 3.5
+                ya -= 1.25
+            except Exception:   # noqa
+                pass
+            c = RichData(np.zeros((n0, n1)), dx, 0.5)
+            for nm, o in (('other', b), ('fresh', c)):
+                R.expect_close(R.call(lambda: o.x), X, 4 * eps * np.abs(X), f'RichData.x:shared-between-objects', f'x of an {nm} object after an in-place edit of another object\'s x')
+                R.expect_close(R.call(lambda: o.y), Y, 4 * eps * np.abs(Y), f'RichData.y:shared-between-objects', f'y of an {nm} object after an in-place edit of another object\'s y')
+            g = R.call(coordinates.make_xy_grid, (n0, n1), dx=dx, grid=True)
+            if g is not FAILED:
+                R.expect_close(g[0], X, 4 * eps * np.abs(X), sig + ':after-edit', 'make_xy_grid after a caller edited earlier coordinates in place')
         R.outcome('grid')
     finally:
         config.precision = 64
@@ -234,6 +251,16 @@ def run_centroid(case, seed, R):
             R.expect_close(got, want, 8 * eps * dx * max(n0, n1), sig, f'centroid of delta at {(i, j)} in {(n0, n1)} dx={dx}')
             got = R.call(psfmod.centroid, d, None, 'pixels')
             R.expect_close(got, (i, j), 8 * eps * max(n0, n1), sig + ':pixels', f'pixel centroid of delta at {(i, j)}')
+    # camera frames: integer dtypes with large pixel values (value x index exceeds the container), float32
+    for dt, val in (('uint8', 200), ('uint16', 4000), ('int16', 30000), ('int32', 2 ** 30), ('float32', 2.5)):
+        for (i, j) in {(0, 0), (n0 - 1, n1 - 1), (n0 // 2, n1 - 1), (n0 - 1, n1 // 2)}:
+            d = np.zeros((n0, n1), dtype=dt)
+            d[i, j] = val
+            got = R.call(psfmod.centroid, d, dx, 'spatial')
+            R.expect_close(got, (dx * (i - n0 // 2), dx * (j - n1 // 2)), 1e-6 * dx * max(n0, n1), sig + f':{dt}',
+                           f'centroid of a {dt} frame with a point source of value {val} at {(i, j)} in {(n0, n1)}')
+            got = R.call(psfmod.centroid, d, None, 'pixels')
+            R.expect_close(got, (i, j), 1e-6 * max(n0, n1), sig + f':pixels:{dt}', f'pixel centroid of a {dt} frame, source at {(i, j)}')
     # two equal point sources straddling the origin symmetrically -> centroid exactly at origin
     if n0 >= 3 and n1 >= 3:
         d = np.zeros((n0, n1))
@@ -265,6 +292,7 @@ def plan(tier, seed):
                   for Q in (1, 1.5, 2, 3, 1.25)]
     sl_cases = [{'n0': n0, 'n1': n1, 'dx': dx} for n0 in range(1, B1 + 1) for n1 in range(1, B1 + 1) for dx in (1.0, 0.3)]
     ce_cases = [{'n0': n0, 'n1': n1, 'dx': dx} for n0 in range(1, B2 + 3) for n1 in range(1, B2 + 3) for dx in (1.0, 0.3)]
+    ce_cases += [{'n0': n0, 'n1': n1, 'dx': 0.5} for (n0, n1) in ((33, 48), (48, 33), (64, 64), (65, 65), (1, 300), (257, 2))]   # index x value overflows narrow containers
     rs = lambda: reset_executors(64)   # noqa
     return [
         ScopeUnit('grids', grid_cases, run_grid,
